@@ -54,6 +54,8 @@ def prepare(ch):
     name = NAMES[ch.draw(len(NAMES))]
     prep.is_agg = name in AGGS
     prep.spec = (AGGS if prep.is_agg else TOOLS)[name].gen(g)
+    if name == "tee":
+        prep.spec.p["carry_on"] = False  # here the failure has to reach the consumer of the driver
     prep.steps = None
     if not prep.is_agg and TOOLS[name].infinite:
         prep.steps = bounded_steps(ch, prep.spec)
